@@ -2,7 +2,8 @@
 """Copy the confirmed round-2 seeded changes from /tmp/seed2 into /verif/seeded with their meta.json."""
 import json, shutil, sys
 from pathlib import Path
-SRC, DST = Path("/tmp/seed2"), Path("/verif/seeded")
+SRC, DST = Path(sys.argv[1] if len(sys.argv) > 1 else "/tmp/seed2"), Path("/verif/seeded")
+ROUND = int(sys.argv[2]) if len(sys.argv) > 2 else 2
 MISSED = {"C02C": "sparse collapse with max / min on sign-definite data added to Products_Gen",
           "C06C": "scalar assignment into regions holding stored entries added to the C06 operation table",
           "C13C": "line-search-limited (maxls = 1, 2) L-BFGS-B runs on data near the start added",
@@ -14,7 +15,34 @@ MISSED = {"C02C": "sparse collapse with max / min on sign-definite data added to
           "C10D": "unbalanced Tucker rank vectors (one rank larger than the product of the others) added",
           "C14C": "dense holder with int16 storage added",
           "C18C": "scale factors 1e-6 and 1e6 added"}
-for d in sorted(SRC.glob("C??[CD]")):
+if ROUND == 3:
+    MISSED = {"C01E": "'grown' presentation: dense tensors completed by assignment beyond their shape (C-ordered internal data)",
+              "C01F": "narrow-integer (int8) subscript arrays and a sparse shape whose mode products exceed 127",
+              "C02E": "a reducer with non-integer values on integer-typed data (halved sum)",
+              "C04E": "read results are held across the following write (neither may change the other)",
+              "C04F": "strided slices in the key alphabet of reads and writes",
+              "C05F": "tensor-valued assignments; an in-place operation may not make the receiver share an operand",
+              "C06E": "one subscript batch that deletes, changes and adds entries",
+              "C07E": "'grown' presentation (see C01E)",
+              "C08E": "Kruskal tensors with C-ordered internal factor matrices (the state normalize(weight_factor) leaves behind)",
+              "C08F": "unevenly balanced Kruskal parameterisation (factor scaled by 2^-60, weights by 2^60)",
+              "C09F": "integer-typed (int64) dense and sparse data",
+              "C10E": "int32 data of magnitude 2e4 and float32 data for hosvd",
+              "C10F": "all runs of one problem start from the same list object; the first result and the list are re-checked afterwards",
+              "C11E": "warm starts with non-uniform weights and the tightest iteration limits",
+              "C11F": "runs ended by the time limit (stoptime = 0)",
+              "C12E": "correction range with non-unit sample weights in the sampled estimators (EstFc / EstGc)",
+              "C12F": "order-5 and lopsided order-4 shapes (two or more intermediate modes contracted at once)",
+              "C14E": "data magnitudes 1e-9 and 1e7",
+              "C14F": "oblique (non-orthogonal) Kruskal components with unequal weights",
+              "C15E": "injective relabelling of the values to +-inf for issymmetric",
+              "C15F": "signed weights for symmetric Kruskal inputs of even order",
+              "C17E": "injective relabelling of row entries (negative, huge)",
+              "C17F": "mixed element types of the Khatri-Rao factors",
+              "C18E": "unequal Tucker ranks under relabelling",
+              "C18F": "element type (int64) as a presentation coordinate",
+              "C19F": "ill-formed factor collections handed over as a Kruskal tensor"}
+for d in sorted(SRC.glob("C??[CDEF]")):
     rj = d / "result.json"
     if not rj.exists():
         print(d.name, "no result"); continue
@@ -27,7 +55,7 @@ for d in sorted(SRC.glob("C??[CD]")):
     for f in ("patch.diff", "demo.py", "notes.md"):
         shutil.copy(d / f, t / f)
     clauses = [l.strip() for l in (d / "clauses.txt").read_text().splitlines() if l.strip()] if (d / "clauses.txt").exists() else []
-    meta = {"property": d.name[:3], "mutant": d.name[3], "round": 2,
+    meta = {"property": d.name[:3], "mutant": d.name[3], "round": ROUND,
             "needs_to_manifest": (d / "notes.md").read_text().strip()[:2500],
             "confirmed": {"worktree": "scratch git worktree of /repo HEAD under /tmp (removed afterwards)", "patch_applies": True,
                           "pytest_with_patch": r["pytest"], "demo_clean_exit": r["demo_clean_exit"],
